@@ -300,17 +300,17 @@ def propagation_table(repo, run, rule, flag):
     for exp in product_dicts(**{'_' + f: F3 for f in others}):
         for v in (True, False):
             for oi in product_dicts(**{'_implicit_' + f: F3 for f in others}):
-                for cv in F3:
+                for cv, pcls in [(c_, k_) for c_ in F3 for k_ in ('ConfigDict', 'ConfigList')]:
                     child = node_obj('child', 'ConfigNode', **{'_implicit_' + flag: cv})
                     before = dict(child.f)
-                    parent = node_obj('parent', 'ComposedNode', _children={'k': child}, **{'_' + flag: None, '_implicit_' + flag: v}, **exp, **oi)
+                    parent = node_obj('parent', pcls, _children={'k': child}, **{'_' + flag: None, '_implicit_' + flag: v}, **exp, **oi)
                     f = FDE(repo)
                     r = fde_guard(lambda: f.call(fi, parent))
                     rows += 1
                     got = child.f['_implicit_' + flag]
                     want = v if not (flag == 'safe' and cv is False) else False
                     if got is not want:
-                        bad.append((dict(exp), v, dict(oi), cv, got, want))
+                        bad.append((dict(exp, parent_class=pcls), v, dict(oi), cv, got, want))
                     changed = any(child.f[k] != before[k] for k in before if k.startswith('_implicit_'))
                     rec = any(e[0] == 'call' and e[1] == '_propagate_implicit_values' and getattr(e[2], 'name', None) == 'child' for e in r.effects)
                     if changed and not rec:
